@@ -14,6 +14,24 @@ CHECKS = {
  "C18": ("model_checking", "full sweep of all 2^33 generator states through the real step function + exhaustive short call sequences through the interpreter",
          "All 2^33 states of the generator are stepped through the real Rng::random and compared with the closed form; seeds beyond 2^33 on a boundary set (thorough: all 2^24 top-bit patterns); every sequence of <= 6 RND calls over 6 argument values x 5 seeds through PRINT.",
          "seeds >= 2^33 rest on the modular-reduction argument plus the enumerated high-bit patterns", "4 C18"),
+ "C03": ("exploration", "small-scope exhaustive enumeration of programs (statement sequences x ':'-join layouts) run on the real interpreter and on an independent reference machine",
+         "Every statement sequence up to the length bound over a 50-template menu (plus deeper sequences over core menus), in the explored join layouts, is run on the real interpreter and on the reference machine; printed output, error kind and error line must agree.",
+         "the reference machine src/refmodel.rs is the oracle; long-running programs are compared on the common output prefix", "4 C03"),
+ "C04": ("model_checking", "explicit-state BFS over edit histories on the real interpreter to an empty frontier (full closure) + exhaustive unrolled edit sequences, against a BTreeMap reference",
+         "All stores reachable over the edit alphabet (6 number spellings incl. u64 extremes x 5 texts, LIST, RUN) are visited; after every event LIST, RUN order and the two internal indexes are compared with a last-writer-wins map; every sequence of <= 4 (quick) / 6 (thorough) edits over three keys is also run without state merging.",
+         "line texts limited to the alphabet", "4 C04"),
+ "C05": ("exploration", "small-scope exhaustive enumeration of files (line menu, character alphabet) + nesting grid in isolated children",
+         "Every file of <= n menu lines, every string of <= m characters over a 12-character alphabet and a nesting-depth grid are analysed by the real analyzer; it must return, give one token list per line, and every diagnostic must map to an in-bounds, character-aligned position on the line it names.",
+         "file contents limited to the recorded menus", "4 C05"),
+ "C12": ("exploration", "deviation-bounded exhaustive perturbation (blank insertion/deletion, case flips) of all short token-spelling sequences, compared by token sequence",
+         "For every base line of <= n token spellings, every single perturbation and every pair within a 6-byte window (all pairs for 1-spelling lines), plus crunched/spread/lower/upper forms, must tokenize to the same token sequence.",
+         "protected regions are marked in the spelling table", "4 C12"),
+ "C13": ("exploration", "exhaustive enumeration of lines over an atom alphabet with a re-tokenization oracle",
+         "Every concatenation of <= n atoms is tokenized by the real tokenizer; ranges must be in bounds, character-aligned, ordered, blank-free at the ends and re-tokenize to exactly their token; error positions must be in bounds with a tokenizable prefix.",
+         "atoms limited to the recorded alphabet", "4 C13"),
+ "C14": ("exploration", "exhaustive enumeration of storable lines (token adjacencies, numeral spellings, DATA item lists, REM) with a LIST/reload fixed-point and behaviour oracle",
+         "Every enumerated program is stored, listed, reloaded from its listing into a fresh interpreter and listed again; listings, stored tokens, RUN transcripts and the DATA items a reader block sees must be identical.",
+         "RUN compared with a 300-turn cap; one recorded known finding (symbol followed by a leading-dot numeral)", "4 C14"),
 }
 
 NOT_YET = {}
